@@ -15,6 +15,7 @@ Driver B (E-ENV): the real samplers' `sample()` under scripted draws forcing eve
 from __future__ import annotations
 
 import itertools
+import os
 from collections import deque
 
 import torch
@@ -50,7 +51,7 @@ NAN, INF = float("nan"), float("inf")
 def bounds(tier):
     return {
         "quick": {"individuals": 2, "follow_depth": "1 read or 1 further proposal+decision", "models": "all catalogue kinds incl. the mixture model", "sampler_scripts": "u in {0, .5, 1-2^-24} per decision, <=1 extreme z"},
-        "thorough": {"individuals": "2 and 3", "follow_depth": 3, "models": "all catalogue kinds incl. the mixture model", "sampler_scripts": "same + 2 deviations"},
+        "thorough": {"individuals": "2 and 3", "follow_depth": "2 (two individuals, REF forking); 1 (COPY forking, three individuals)", "models": "all catalogue kinds incl. the mixture model", "sampler_scripts": "same + 2 deviations"},
     }[tier]
 
 
@@ -529,7 +530,11 @@ def run_shard(shard):
     base = {"model": shard["model"], "ids": shard["ids"]}
     if shard["driver"] == "protocol":
         fm = shard.get("fork_mode", "REF")
-        explore_protocol(u, shard["variable"], acc, follow_depth=3 if thorough else 1, quick=not thorough,
+        # following history: quick 1; thorough 2 on the two-individual REF shards (one such shard is ~3e5 transitions, 7 CPU-minutes;
+        # depth 3 did not finish in 40 CPU-minutes per shard once null proposals, COPY forking and integer masks had joined the
+        # alphabet), 1 on the COPY and three-individual shards (which quick only runs on the first model / not at all)
+        deep = thorough and fm == "REF" and len(shard["ids"]) == 2
+        explore_protocol(u, shard["variable"], acc, follow_depth=int(os.environ.get("LMC_C02_DEPTH", "2")) if deep else 1, quick=not thorough,
                          case_base=dict(base, driver="protocol", **({"fork_mode": fm} if fm != "REF" else {})), fork_mode=fm)
     elif shard["driver"] == "dtype":
         explore_dtype(u, acc, base)
